@@ -14,6 +14,7 @@ from typing import (
     cast,
 )
 
+import narwhals.stable.v1 as narwhals
 import numpy
 import pandas
 import scipy.sparse as spsparse
@@ -71,9 +72,12 @@ def C(
         model_spec: ModelSpec,
     ) -> FactorValues:
         # wrapped numpy arrays are problematic
-        values = pandas.Series(
-            values.__wrapped__ if isinstance(values, FactorValues) else values
-        )
+        if isinstance(values, FactorValues):
+            values = values.__wrapped__
+        if narwhals.dependencies.is_narwhals_series(values):
+            # Preserve dtype information (e.g. the categories of categoricals)
+            values = values.to_pandas()
+        values = pandas.Series(values)
         values = drop_nulls(values, indices=drop_rows)
         return encode_contrasts(
             values,
